@@ -128,12 +128,20 @@ func trimMain(mode string, a args) {
 		mism := []J{}
 		var samples []interface{}
 		trace := newOut(a.str("trace", "/dev/null"))
+		var prevLine json.RawMessage
+		prevKey := ""
 		readLines(a.str("in", ""), func(line []byte) {
 			var c trimCase
 			if err := json.Unmarshal(line, &c); err != nil {
 				die("bad case: %v", err)
 			}
 			cases++
+			key := fmt.Sprint(c.Toks, c.Lm, c.Rm)
+			if key != prevKey {
+				prevLine, prevKey = nil, key
+			}
+			myPrev := prevLine
+			prevLine = json.RawMessage(append([]byte{}, line...))
 			content := trimText(c.Toks, c.Gaps)
 			G := c.G
 			if len(G) == 0 {
@@ -161,7 +169,11 @@ func trimMain(mode string, a args) {
 				bad = true
 			}
 			if bad && len(mism) < 20 {
-				mism = append(mism, J{"case": json.RawMessage(append([]byte{}, line...)), "what": fmt.Sprintf("trims on %q lm=%v rm=%v", content, c.Lm, c.Rm), "got": obs, "want": want})
+				m := J{"case": json.RawMessage(append([]byte{}, line...)), "what": fmt.Sprintf("trims on %q lm=%v rm=%v", content, c.Lm, c.Rm), "got": obs, "want": want}
+				if myPrev != nil {
+					m["prev"] = myPrev // the input parsed just before with the same parser object
+				}
+				mism = append(mism, m)
 			}
 			// probe trace for ParsleyTrace (conformance of the trim actions of the machine)
 			cc := &caseT{G: G, W: intsOf(content), B: c.B, Adm: false, Root: len(G), Asks: []askT{{N: len(G), P: c.B}}}
